@@ -118,7 +118,9 @@ Section Auth.
                       am_ack : option ack;   (* msg.Acknowledgement as ABIDecode reads it; None = undecodable *)
                       am_rest : AK }.
 
-  (** result of `CallPacket(ctx, "onRecvPacket", packet)` + `UnpackIntoInterface` *)
+  (** result of `CallPacket(cctx, "onRecvPacket", packet)` + `UnpackIntoInterface`; the callback runs on
+      a branch of the state which the msg server writes back only for result code 0 — the lower state
+      carried by the result is the state AFTER that decision (the authorization layer does not care). *)
   Inductive cb_result :=
   | CbFailed (d : D)                                   (* CallPacket returned an error *)
   | CbReturned (d : D) (r : option (N * bytes * bytes)) (* returned; Some (code, result, message) if it decodes *)
@@ -264,7 +266,10 @@ Section Auth.
 
   (** BaseApp.runTx: the message runs on a cache of the state which is written back
       only when the handler returns without error; a panic is recovered into an error.
-      (Validated by the store comparison of the correspondence check.) *)
+      (Validated by the store comparison of the correspondence check.)  For the two
+      registration paths a panic (empty address = empty store key) happens outside such a
+      recovery — in gov's EndBlocker (excluded by ValidateBasic) or in InitGenesis, where it
+      aborts the start of the chain; either way no registration results. *)
   Definition deliver (s : state) (r : outcome state) : state * bool :=
     match r with Ok s' => (s', true) | _ => (s, false) end.
 
